@@ -356,6 +356,8 @@ var fileOps = []fsx.Op{
 	{K: "Open", P: "/w/ab", Flag: os.O_RDONLY, H: 2}, {K: "FReadDir", H: 2, N: -1}, {K: "FStat", H: 2}, {K: "FClose", H: 2}, {K: "FStat", H: 1}, {K: "FReadDir", H: 1, N: -1},
 	{K: "Lchown", P: "/w/sl", Uid: 1001, Gid: 1002}, {K: "Lchown", P: "/w/sl", Uid: 0, Gid: 0}, {K: "Lstat", P: "/w/sl"}, {K: "ReadDir", P: "/w"}, {K: "Readlink", P: "/w/sl"},
 	{K: "Chown", P: "/w/a/x", Uid: 1001, Gid: -1}, {K: "Lstat", P: "/w/a/x"},
+	// truncation at open time, whatever the access mode, against the readers of other handles of the file
+	{K: "Open", P: "/w/a/x", Flag: os.O_RDONLY | os.O_TRUNC, H: 3}, {K: "FClose", H: 3}, {K: "Open", P: "/w/a/x", Flag: os.O_WRONLY | os.O_TRUNC, H: 3}, {K: "FWrite", H: 3, Data: "again"},
 	// the working directory of a MemFS worker belongs to its own view: setting it reads the shared tree (as that view's user)
 	{K: "FChdir", H: 1}, {K: "FChdir", H: 2}, {K: "Chdir", P: "/w/a"}, {K: "Chdir", P: "/w/ab"}, {K: "Chdir", P: "/w"}, {K: "Getwd"},
 	{K: "Chmod", P: "/w/a", Perm: 0o711}, {K: "Chmod", P: "/w/a", Perm: 0o777}, {K: "Chown", P: "/w/ab", Uid: 1001, Gid: 1002}, {K: "Chown", P: "/w/ab", Uid: 0, Gid: 0}, {K: "FChmod", H: 2, Perm: 0o755},
